@@ -37,6 +37,8 @@ TRUSTED = ["CPython ast parser", "numpy fancy indexing a[p] places a[p[i]] at ro
 
 WRITERS = ("fchk", "molden", "molekel", "wfn", "wfx")
 COEFF_ATTRS = ("coeffs", "coeffsa", "coeffsb")
+EXPLANATION += ' Added: (R10) a real-valued electron count, charge or multiplicity reaches an integer field of a wavefunction file only through rounding (never int() truncation or a float in a d field); (R11) convert_to_segmented, evaluated on abstract SP / PS / PD / generally contracted shells, keeps every contraction in its place (the coefficient rows are not re-ordered by the writers). R9 now takes every use of the orbital coefficients in a writer as an instance and follows local names over two-step applications.'
+TECHNIQUE += '; count-field dataflow rule; accessor evaluation of the segmentation'
 
 
 def module_closure(prog, root):
@@ -48,7 +50,7 @@ def run(ctx):
     ce = ConstEval(prog)
     cc = prog.func("iodata.convert.convert_conventions")
     mb_cls = prog.cls("iodata.basis.MolecularBasis")
-    ctx.clauses_decided = ["R1 conventions applied (index, then scale)", "R2 target-table agreement", "R3 basis coherence", "R4 scale coherence", "R5 density matrices converted", "R6 prepare_dump guard matrix", "R7 written numbers are readable", "R8 Molden pure/Cartesian tags", "R9 convention application evaluated on symbols", "R10 integer count fields rounded", "R11 segmentation semantics"]
+    ctx.clauses_decided = ["R1 conventions applied (index, then scale)", "R2 target-table agreement", "R3 basis coherence", "R4 scale coherence", "R5 density matrices converted", "R6 prepare_dump guard matrix", "R7 written numbers are readable", "R8 Molden pure/Cartesian tags", "R9 convention application evaluated on symbols", "R10 integer count fields rounded", "R11 segmentation semantics", "R12 Molekel centre separators (evaluated)", "R13 WFX spin labels (evaluated)"]
     ctx.clauses_declined = ["equality of orbital values / occupations / energies / densities to the digits printed", "Molekel '$$'-per-center encoding for unsorted centers", "spin-labelling heuristics of the WFN reader"]
     for rid, title, wit in (
         ("R1", "orbital coefficients are permuted, then sign-scaled, with the pair from one convert_conventions call", "rows in the wrong place or with the wrong sign for any shell whose convention differs from the target's"),
@@ -191,6 +193,14 @@ def run(ctx):
     from .segpred import check_segmentation
 
     check_count_fields(ctx, "R10")
+    from .centers import check_molekel_centers
+
+    ctx.rule("R12", "Molekel: the `$$` separators written before a shell put it on its atom when read (writer and reader evaluated)", "shells move to another atom (every orbital changes) when an atom carries no basis functions")
+    check_molekel_centers(ctx, "R12")
+    from .centers import check_wfx_spin_labels
+
+    ctx.rule("R13", "WFX: the spin-type labels written for a set of orbitals are read back as the same kind and counts (writer and reader evaluated)", "restricted orbitals with occupations that never exceed 1 come back as alpha-only unrestricted orbitals: the alpha electron count doubles, beta vanishes")
+    check_wfx_spin_labels(ctx, "R13")
     ctx.rule("R11", "segmentation before writing keeps every contraction, in order (evaluated)", "an SP / PS / general contraction is re-ordered or merged on the way to the file while the coefficient rows stay where they were")
     check_segmentation(ctx, "R11", "R11")
     ctx.rule("R9", "written coefficient rows are signs[r] x rows[permutation[r]] (symbolic evaluation of the writer expressions)", "signs are attached to the rows before they are moved (or the permutation is applied twice / on the wrong axis): coefficients of sign-flipped functions change sign or position")
